@@ -12,16 +12,20 @@ package main
 // load is (load only adds lateness): with discard_overflow on at least one sample must be a discarded one, with it off
 // none may be.
 //
+// rps=mix (yaml): the profile is once(1) followed by const(2 rps, 4 s) = 9 tokens: late and on-time tokens alternate.
+//
 // pools=<k>: k identical pool sections (each with its own phout file) — the default has to reach every pool.
 //
 // Observation: rc=<exit code|timeout|build> total=<N*k> fired=<lines that are not discarded samples> disc=<discarded samples>
 // bad=<lines that carry only one of tag "discarded" / net code 777> served=<requests the target answered>
-// mindisc=<fewest discarded samples of a pool> (counts summed over the pools)
+// mindisc=<fewest discarded samples of a pool> recv=<requests that arrived at the target> errs=<fired lines with a net error>
+// (counts summed over the pools)
 
 import (
 	"bytes"
 	"context"
 	"crypto/sha1"
+	"encoding/json"
 	"fmt"
 	"net"
 	"net/http"
@@ -68,21 +72,28 @@ func buildPandora() (string, string) {
 func runProc(m map[string]string) string {
 	bin, berr := buildPandora()
 	times, _ := strconv.Atoi(m["times"])
+	if m["rps"] == "mix" {
+		if f := m["fmt"]; f != "" && f != "yaml" && f != "stdin" {
+			return "BADINPUT"
+		}
+		times = 9
+	}
 	if bin == "" {
-		return fmt.Sprintf("rc=build total=%d fired=0 disc=0 bad=0 served=0 mindisc=0 why=%s", times, strings.ReplaceAll(berr, " ", "_"))
+		return fmt.Sprintf("rc=build total=%d fired=0 disc=0 bad=0 served=0 mindisc=0 recv=0 errs=0 why=%s", times, strings.ReplaceAll(berr, " ", "_"))
 	}
 	lat, _ := strconv.Atoi(m["lat"])
 	dir, err := os.MkdirTemp("/var/tmp", "c04-proc-")
 	if err != nil {
-		return fmt.Sprintf("rc=tmpdir total=%d fired=0 disc=0 bad=0 served=0 mindisc=0", times)
+		return fmt.Sprintf("rc=tmpdir total=%d fired=0 disc=0 bad=0 served=0 mindisc=0 recv=0 errs=0", times)
 	}
 	defer os.RemoveAll(dir)
 	ln, err := net.Listen("tcp", "127.0.0.1:0")
 	if err != nil {
-		return fmt.Sprintf("rc=listen total=%d fired=0 disc=0 bad=0 served=0 mindisc=0", times)
+		return fmt.Sprintf("rc=listen total=%d fired=0 disc=0 bad=0 served=0 mindisc=0 recv=0 errs=0", times)
 	}
-	var served atomic.Int64
+	var served, recv atomic.Int64
 	srv := &http.Server{Handler: http.HandlerFunc(func(w http.ResponseWriter, r *http.Request) {
+		recv.Add(1)
 		time.Sleep(time.Duration(lat) * time.Millisecond)
 		w.Header().Set("Content-Length", "2")
 		_, _ = w.Write([]byte("ok"))
@@ -91,50 +102,31 @@ func runProc(m map[string]string) string {
 	go func() { _ = srv.Serve(ln) }()
 	defer srv.Close()
 
-	opt := ""
-	switch m["given"] {
-	case "true":
-		opt = "    discard_overflow: true\n"
-	case "false":
-		opt = "    discard_overflow: false\n"
-	}
 	pools, _ := strconv.Atoi(m["pools"])
 	if pools < 1 {
 		pools = 1
 	}
-	cfg := "pools:\n"
 	var phouts []string
 	for k := 0; k < pools; k++ {
-		phout := filepath.Join(dir, fmt.Sprintf("phout%d.log", k))
-		phouts = append(phouts, phout)
-		cfg += fmt.Sprintf(`  - id: c04p%d
-    gun:
-      type: http
-      target: %s
-    ammo:
-      type: uri
-      uris:
-        - /c04 tagC04
-    result:
-      type: phout
-      destination: %s
-    rps:
-      type: once
-      times: %d
-    startup:
-      type: once
-      times: 1
-%s`, k, ln.Addr().String(), phout, times, opt)
+		phouts = append(phouts, filepath.Join(dir, fmt.Sprintf("phout%d.log", k)))
 	}
-	cfg += "log:\n  level: error\n"
-	cfgPath := filepath.Join(dir, "load.yaml")
+	cfg, ext := procConfig(m, ln.Addr().String(), phouts, times)
+	if cfg == "" {
+		return "BADINPUT"
+	}
+	cfgPath := filepath.Join(dir, "load."+ext)
 	if err := os.WriteFile(cfgPath, []byte(cfg), 0o644); err != nil {
-		return fmt.Sprintf("rc=config total=%d fired=0 disc=0 bad=0 served=0 mindisc=0", times)
+		return fmt.Sprintf("rc=config total=%d fired=0 disc=0 bad=0 served=0 mindisc=0 recv=0 errs=0", times)
 	}
 	ctx, cancel := context.WithTimeout(context.Background(), time.Duration(times*lat+60000)*time.Millisecond)
 	defer cancel()
 	var stderr bytes.Buffer
 	cmd := exec.CommandContext(ctx, bin, cfgPath)
+	if m["fmt"] == "stdin" {
+		// `pandora -`: the (yaml) config is read from standard input
+		cmd = exec.CommandContext(ctx, bin, "-")
+		cmd.Stdin = strings.NewReader(cfg)
+	}
 	cmd.Dir = dir
 	cmd.Stderr = &stderr
 	cmd.Stdout = &stderr
@@ -148,7 +140,7 @@ func runProc(m map[string]string) string {
 			rc = "start"
 		}
 	}
-	fired, disc, bad, mindisc := 0, 0, 0, -1
+	fired, disc, bad, mindisc, errs := 0, 0, 0, -1, 0
 	for _, phout := range phouts {
 		pd := 0
 		if b, err := os.ReadFile(phout); err == nil {
@@ -170,6 +162,9 @@ func runProc(m map[string]string) string {
 					bad++
 				default:
 					fired++
+					if f[10] != "0" {
+						errs++ // a fired request with a net error may not have reached the target
+					}
 				}
 			}
 		}
@@ -178,5 +173,98 @@ func runProc(m map[string]string) string {
 			mindisc = pd
 		}
 	}
-	return fmt.Sprintf("rc=%s total=%d fired=%d disc=%d bad=%d served=%d mindisc=%d", rc, times*pools, fired, disc, bad, served.Load(), mindisc)
+	return fmt.Sprintf("rc=%s total=%d fired=%d disc=%d bad=%d served=%d mindisc=%d recv=%d errs=%d", rc, times*pools, fired, disc, bad, served.Load(), mindisc, recv.Load(), errs)
+}
+
+// procConfig renders the config of one proc case: `pools` identical pool sections (each with its own phout file) in the
+// format fmt=yaml (default) | json | toml | stdin (yaml on standard input). given=none leaves discard_overflow out, given=true /
+// given=false writes it; key=upper writes the option's key in upper case (config keys are case-insensitive). anchor=1 (yaml):
+// the second and later pool sections are the first one taken over through a yaml merge key (`<<: *p0`).
+func procConfig(m map[string]string, target string, phouts []string, times int) (string, string) {
+	key := "discard_overflow"
+	if m["key"] == "upper" {
+		key = "DISCARD_OVERFLOW"
+	}
+	given := m["given"]
+	if given != "none" && given != "true" && given != "false" {
+		return "", ""
+	}
+	switch m["fmt"] {
+	case "", "yaml", "stdin":
+		opt := ""
+		if given != "none" {
+			opt = fmt.Sprintf("    %s: %s\n", key, given)
+		}
+		rps := fmt.Sprintf("      type: once\n      times: %d\n", times)
+		if m["rps"] == "mix" {
+			// one token at the start, then 2 per second for 4 s: with answers slower than 1 s the instance alternates between
+			// firing and discarding, so discarded samples and samples of real requests interleave in the result file
+			rps = "      - type: once\n        times: 1\n      - type: const\n        ops: 2\n        duration: 4s\n"
+		}
+		cfg := "pools:\n"
+		for k, phout := range phouts {
+			if m["anchor"] == "1" && k > 0 {
+				// the section is the first one (merge key) with its own id and result file
+				cfg += fmt.Sprintf("  - <<: *p0\n    id: c04p%d\n    result:\n      type: phout\n      destination: %s\n", k, phout)
+				continue
+			}
+			head := "  - id: c04p0\n"
+			if m["anchor"] == "1" {
+				head = "  - &p0\n    id: c04p0\n"
+			} else if k > 0 {
+				head = fmt.Sprintf("  - id: c04p%d\n", k)
+			}
+			cfg += head + fmt.Sprintf(`    gun:
+      type: http
+      target: %s
+    ammo:
+      type: uri
+      uris:
+        - /c04 tagC04
+    result:
+      type: phout
+      destination: %s
+    rps:
+%s    startup:
+      type: once
+      times: 1
+`, target, phout, rps) + opt
+		}
+		cfg += "log:\n  level: error\n"
+		return cfg, "yaml"
+	case "json":
+		var ps []any
+		for k, phout := range phouts {
+			p := map[string]any{
+				"id":      fmt.Sprintf("c04p%d", k),
+				"gun":     map[string]any{"type": "http", "target": target},
+				"ammo":    map[string]any{"type": "uri", "uris": []string{"/c04 tagC04"}},
+				"result":  map[string]any{"type": "phout", "destination": phout},
+				"rps":     map[string]any{"type": "once", "times": times},
+				"startup": map[string]any{"type": "once", "times": 1},
+			}
+			if given != "none" {
+				p[key] = given == "true"
+			}
+			ps = append(ps, p)
+		}
+		b, err := json.Marshal(map[string]any{"pools": ps, "log": map[string]any{"level": "error"}})
+		if err != nil {
+			return "", ""
+		}
+		return string(b), "json"
+	case "toml":
+		cfg := "[log]\nlevel = \"error\"\n"
+		for k, phout := range phouts {
+			cfg += fmt.Sprintf("[[pools]]\nid = \"c04p%d\"\n", k)
+			if given != "none" {
+				cfg += fmt.Sprintf("%s = %s\n", key, given)
+			}
+			cfg += fmt.Sprintf("[pools.gun]\ntype = \"http\"\ntarget = %q\n[pools.ammo]\ntype = \"uri\"\nuris = [\"/c04 tagC04\"]\n"+
+				"[pools.result]\ntype = \"phout\"\ndestination = %q\n[pools.rps]\ntype = \"once\"\ntimes = %d\n[pools.startup]\ntype = \"once\"\ntimes = 1\n",
+				target, phout, times)
+		}
+		return cfg, "toml"
+	}
+	return "", ""
 }
